@@ -183,6 +183,10 @@ def gen_joint(rng, tier):
             p['stmin'] = rng.choice([0, 0, 1, 0xF3])
         if rng.random() < 0.6:
             p['blocksize'] = rng.choice([0, 1, 2, 3, 8])
+        if rng.random() < 0.2:
+            # rate limiter on (the theorems hold for it too): a few frames per 125 ms window, float-exact budget
+            p.update(rate_limit_enable=True, rate_limit_max_bitrate=p.get('tx_data_length', 8) * 8 * 8 * rng.choice([1, 2, 4]), rate_limit_window_size=0.125)
+            assert limiter_exact(p['rate_limit_max_bitrate'], 0.125)
     plen = {'A': 1 if a['txa']['mode'].startswith(('Extended', 'Mixed')) else 0, 'B': 1 if b['txa']['mode'].startswith(('Extended', 'Mixed')) else 0}
     par = {'A': pa, 'B': pb}
     calls = []
